@@ -35,6 +35,11 @@ pub struct SamModel {
 }
 
 impl SamModel {
+    /// The text with CRLF line terminators (SAM readers accept them); the model is unchanged.
+    pub fn text_crlf(&self) -> String {
+        self.text().replace('\n', "\r\n")
+    }
+
     pub fn text(&self) -> String {
         let mut s = self.header.clone();
         for r in &self.records {
